@@ -46,17 +46,25 @@ Proof.
   intros M E. rewrite (set_contains_only_effective S arg), (set_contains_only_effective S' arg'), E.
   unfold set_contains, set_contains_v. now rewrite M.
 Qed.
-(* S' is S after any re-assignment of the set's override (same members) *)
-Theorem set_enable_monotone_general S S' arg arg' inst item : ms S = ms S' -> set_effective S' arg' = true ->
+(* with an explicit setting a member's own override is not consulted: the conjunction depends on the members' _spec only *)
+Lemma all_members_sp b c l : forall l', map m_sp l = map m_sp l' -> all_members (Some b) c l = all_members (Some b) c l'.
+Proof.
+  induction l as [|m l IH]; intros [|m' l'] E; try discriminate; auto. cbn [map] in E. injection E as E1 E2.
+  cbn [all_members]. assert (X : contains_v (m_sp m) (m_ov m) (Some b) c = contains_v (m_sp m') (m_ov m') (Some b) c) by (unfold contains_v; now rewrite E1).
+  rewrite X. destruct (contains_v (m_sp m') (m_ov m') (Some b) c) as [[|]| |]; auto.
+Qed.
+(* S' : the same member SPECIFIERS under any other overrides - of the set (constructor, later assignment) and of the members themselves
+   (the fourth layer).  Enabling pre-releases by any of these means, or by the argument, never removes a match. *)
+Theorem set_enable_monotone_general S S' arg arg' inst item : map m_sp (ms S) = map m_sp (ms S') -> set_effective S' arg' = true ->
   set_contains S arg inst item = Ans true -> set_contains S' arg' inst item = Ans true.
 Proof.
   intros M E. rewrite (set_contains_only_effective S arg), (set_contains_only_effective S' arg'), E.
-  destruct (set_effective S arg).
-  - unfold set_contains, set_contains_v. now rewrite M.
-  - intros H. destruct S as [l o], S' as [l' o']. cbn [ms] in M. subst l'.
-    exact (set_enable_monotone {| ms := l; ov := o |} o o' inst item H).
+  unfold set_contains. destruct (Version item) as [c|]; [|discriminate]. unfold set_contains_v. cbn [truthy negb andb].
+  destruct (set_effective S arg); cbn [negb andb].
+  - destruct (if truthy inst && is_prerelease c then Version (base_str c) else Some c) as [c'|]; auto. now rewrite (all_members_sp true c' (ms S) (ms S') M).
+  - destruct (is_prerelease c) eqn:P; [discriminate|]. rewrite andb_false_r.
+    rewrite (all_members_final (Some false) (Some true) c (ms S) P). now rewrite (all_members_sp true c (ms S) (ms S') M).
 Qed.
-
 (* ---------------------------------------------------------------- filter: monotone in the effective setting *)
 Lemma filter_incl_impl {X} (p q : X -> bool) l : (forall x, In x l -> p x = true -> q x = true) -> incl (filter p l) (filter q l).
 Proof. intros H x Hx. apply filter_In in Hx as [I P]. apply filter_In. auto. Qed.
@@ -96,7 +104,7 @@ Proof.
   assert (V : Version (vstr (snd x)) = Some (snd x)) by (apply Version_vstr; auto).
   assert (A : set_contains S arg None (vstr (snd x)) = Ans true).
   { rewrite set_contains_split, V. destruct (set_contains_v S arg None (snd x)) as [[|]| |]; try discriminate; reflexivity. }
-  pose proof (set_enable_monotone_general S S' arg arg' None (vstr (snd x)) M E A) as Bq. rewrite set_contains_split, V in Bq. now rewrite Bq.
+  pose proof (set_enable_monotone_general S S' arg arg' None (vstr (snd x)) (f_equal (map m_sp) M) E A) as Bq. rewrite set_contains_split, V in Bq. now rewrite Bq.
 Qed.
 (* the empty set with its fall-back: everything returned under any setting is returned once pre-releases are enabled (= the whole list) *)
 Theorem empty_filter_monotone S S' arg arg' xs : ms S = [] -> ms S' = [] -> set_effective S' arg' = true ->
@@ -304,17 +312,42 @@ Proof.
     rewrite (set_filter_exact S arg _ NE W (wf_items_filter _ xs WI)). now rewrite filter_filter_same.
 Qed.
 
-(* non-vacuity: Specifier(">=1.0"), override False, no argument rejects 1.5a1; after enabling (argument True) it is accepted;
-   filter under the fall-back returns [1.5a1] which is included in the filter result with pre-releases enabled;
-   ">=1.0" and ">=1" filter alike; SpecifierSet([Specifier(">=1.0", prereleases=True)]) enables pre-releases by the fourth layer *)
+Definition forallb2 (a b : list item) : bool := Nat.eqb (length a) (length b) && forallb (fun p => Nat.eqb (fst (fst p)) (fst (snd p))) (combine a b).
+(* non-vacuity, each conjunct instantiating the hypotheses of a theorem above on ONE input:
+   - monotone contains: Specifier(">=1.0", prereleases=False).contains("2.0") is True (effective setting false) and stays True with the
+     argument True; 1.5a1 is rejected under the override False and accepted under the argument True;
+   - monotone filter, the SAME list ["1.5a1", "0.1"]: the fall-back returns [1.5a1], filter(prereleases=True) returns [1.5a1] too;
+     on ["1.5a1", "2.0"] the fall-back is not taken and returns [2.0], which is included in [1.5a1, 2.0];
+   - idempotence on the fall-back: filtering the fall-back's own output [1.5a1] returns it again;
+   - ">=1.0" and ">=1" filter alike; the fourth layer: SpecifierSet([Specifier(">=1.0", prereleases=True)]) enables pre-releases;
+   - monotone set contains across MEMBER overrides: the member without override rejects 2.0a1 ... accepts it once the member has True;
+   - pre_coherent: [>=1 (True); >=1.0 (True)] are == with the same .prereleases and either supply order gives prereleases True *)
 Definition c06more_check : bool :=
   match Specifier [62;61;49;46;48], Specifier [62;61;49] with
   | Some sp, Some sp' =>
-      (match contains sp (Some false) None [49;46;53;97;49], contains sp None (Some true) [49;46;53;97;49] with Ans false, Ans true => true | _, _ => false end)
-      && (match spec_filter sp None None [[49;46;53;97;49]], spec_filter sp' None None [[49;46;53;97;49]] with FOk [0%nat], FOk [0%nat] => true | _, _ => false end)
-      && (match spec_filter sp None (Some true) [[49;46;53;97;49]; [50;46;48]] with FOk [0%nat; 1%nat] => true | _ => false end)
+      let pre1 := [49;46;53;97;49] in let low := [48;46;49] in let two := [50;46;48] in
+      (match contains sp (Some false) None two, contains sp None (Some true) two with Ans true, Ans true => true | _, _ => false end)
+      && negb (spec_effective sp (Some false) None) && spec_effective sp None (Some true)
+      && (match contains sp (Some false) None pre1, contains sp None (Some true) pre1 with Ans false, Ans true => true | _, _ => false end)
+      && (match spec_filter sp None None [pre1; low], spec_filter sp None (Some true) [pre1; low] with FOk [0%nat], FOk [0%nat] => true | _, _ => false end)
+      && (match spec_filter sp None None [pre1; two], spec_filter sp (Some true) None [pre1; two] with FOk [1%nat], FOk [0%nat; 1%nat] => true | _, _ => false end)
+      && (match coerce_from 0 [pre1; low] with
+          | Some xs => match spec_filter_v sp None None xs with
+                       | Some ys => (match ys with [y] => it_pre y | _ => false end) &&
+                                    (match spec_filter_v sp None None ys with Some zs => Nat.eqb (length zs) 1 && forallb2 zs ys | None => false end)
+                       | None => false end
+          | None => false end)
+      && (match spec_filter sp None None [pre1], spec_filter sp' None None [pre1] with FOk [0%nat], FOk [0%nat] => true | _, _ => false end)
       && set_effective (SpecifierSet_of [{| m_sp := sp; m_ov := Some true |}] None) None
       && negb (set_effective (SpecifierSet_of [{| m_sp := sp; m_ov := None |}] None) None)
+      && (match set_contains (SpecifierSet_of [{| m_sp := sp; m_ov := None |}] None) None None two,
+                set_contains (SpecifierSet_of [{| m_sp := sp; m_ov := Some true |}] None) None None two,
+                set_contains (SpecifierSet_of [{| m_sp := sp; m_ov := None |}] None) None None [50;46;48;97;49],
+                set_contains (SpecifierSet_of [{| m_sp := sp; m_ov := Some true |}] None) None None [50;46;48;97;49] with
+          | Ans true, Ans true, Ans false, Ans true => true | _, _, _, _ => false end)
+      && (let a := {| m_sp := sp'; m_ov := Some true |} in let b := {| m_sp := sp; m_ov := Some true |} in
+          m_eqb a b && Bool.eqb (m_pre a) (m_pre b) &&
+          set_effective (SpecifierSet_of [a; b] None) None && set_effective (SpecifierSet_of [b; a] None) None)
   | _, _ => false
   end.
 Example c06more_nonvacuous : c06more_check = true.
